@@ -1,16 +1,1013 @@
-//! C15 (component level) — not built yet.
+//! C15 (component level): `crypto::application::KeySet` (1-RTT key updates, AEAD limits)
+//! driven as two communicating endpoints with an instrumented `OneRttKey` and compared
+//! after every operation with an explicit per-endpoint model transcribed from RFC 9001 §6.
+//!
+//! The calling discipline mirrors `s2n-quic-transport/src/space/application.rs`:
+//! * sending: `key_set.encrypt_packet(buffer, |buffer, key, phase| Short{..}.encode_packet(..))`
+//! * receiving: `ProtectedPacket::decode` → `ProtectedShort::unprotect(header_key, largest_acked)`
+//!   → `key_set.decrypt_packet(packet, largest_acked, now + pto)` where `largest_acked` is the
+//!   largest received packet number for which the receiver has sent an ACK
+//!   (`AckManager::largest_received_packet_number_acked`)
+//! * `key_set.on_timeout(now)`, `timer::Provider::next_expiration`.
+//!
+//! Instrumented key: ciphertext = plaintext ∥ tag(secret, generation, pn, header, plaintext);
+//! `derive_next_key` bumps the generation; `decrypt` recomputes the tag with its own
+//! generation. So a packet decrypts exactly under the key generation that sealed it.
 
-use vcore::{Property, SubCheck};
+use proptest::prelude::*;
+use s2n_codec::{DecoderBufferMut, EncoderBuffer};
+use s2n_quic_core::{
+    connection::{self, id::ConnectionInfo, ProcessingError},
+    crypto::{
+        application::{limited::Limits, KeySet},
+        packet_protection, scatter,
+        testing::HeaderKey,
+        Key as CryptoKey, OneRttKey,
+    },
+    inet::SocketAddress,
+    packet::{
+        encoding::{PacketEncoder, PacketEncodingError},
+        number::{PacketNumber, PacketNumberSpace},
+        short::{Short, SpinBit},
+        KeyPhase, ProtectedPacket,
+    },
+    time::{timer::Provider as _, Clock as _, Duration, NoopClock, Timestamp},
+    transport,
+    varint::VarInt,
+};
+use serde::{Deserialize, Serialize};
+use std::sync::{
+    atomic::{AtomicI64, AtomicU64, Ordering::Relaxed},
+    Arc,
+};
+use vcore::{ensure_that, fail, gen::*, CaseResult, EnumCheck, Obs, PropCheck, Property, SubCheck, Tier};
+
+// ---------------------------------------------------------------------------------------
+// instrumented key
+
+const TAG_LEN: usize = 16;
+const DCID: [u8; 8] = [0xc1, 0x5c, 0x15, 0x0d, 0xc1, 0xd0, 0x00, 0x15];
+const PAYLOAD_LEN: usize = 40;
+const GENUINE_SECRET: u8 = 1;
+const FOREIGN_SECRET: u8 = 2;
+
+#[derive(Default)]
+struct Probe {
+    /// generation of the key whose `encrypt` ran during the current call (-1: none)
+    enc_gen: AtomicI64,
+    enc_calls: AtomicU64,
+    /// generation of the key whose `decrypt` ran during the current call (-1: none)
+    dec_gen: AtomicI64,
+    dec_calls: AtomicU64,
+}
+
+impl Probe {
+    fn reset(&self) {
+        self.enc_gen.store(-1, Relaxed);
+        self.enc_calls.store(0, Relaxed);
+        self.dec_gen.store(-1, Relaxed);
+        self.dec_calls.store(0, Relaxed);
+    }
+}
+
+pub struct K {
+    secret: u8,
+    generation: u32,
+    confidentiality_limit: u64,
+    integrity_limit: u64,
+    probe: Arc<Probe>,
+}
+
+#[inline]
+fn mix(mut z: u64) -> u64 {
+    z = (z ^ (z >> 30)).wrapping_mul(0xBF58_476D_1CE4_E5B9);
+    z = (z ^ (z >> 27)).wrapping_mul(0x94D0_49BB_1331_11EB);
+    z ^ (z >> 31)
+}
+
+fn compute_tag(secret: u8, generation: u32, pn: u64, header: &[u8], body: &[u8]) -> [u8; TAG_LEN] {
+    let mut h = mix(0x243F_6A88_85A3_08D3 ^ ((secret as u64) << 40) ^ generation as u64);
+    h = mix(h ^ pn.wrapping_mul(0x9E37_79B9_7F4A_7C15));
+    h = mix(h ^ ((header.len() as u64) << 32) ^ body.len() as u64);
+    for (i, b) in header.iter().chain(body.iter()).enumerate() {
+        h = mix(h ^ ((i as u64) << 8) ^ *b as u64);
+    }
+    let mut out = [0u8; TAG_LEN];
+    out[..8].copy_from_slice(&h.to_le_bytes());
+    out[8..].copy_from_slice(&mix(h ^ 0xC15C_15C1_5C15_C15C).to_le_bytes());
+    out
+}
+
+impl CryptoKey for K {
+    fn decrypt(&self, packet_number: u64, header: &[u8], payload: &mut [u8]) -> Result<(), packet_protection::Error> {
+        self.probe.dec_calls.fetch_add(1, Relaxed);
+        self.probe.dec_gen.store(self.generation as i64, Relaxed);
+        if payload.len() < TAG_LEN {
+            return Err(packet_protection::Error::DECRYPT_ERROR);
+        }
+        let (body, tag) = payload.split_at(payload.len() - TAG_LEN);
+        let expected = compute_tag(self.secret, self.generation, packet_number, header, body);
+        if tag == expected {
+            Ok(())
+        } else {
+            Err(packet_protection::Error::DECRYPT_ERROR)
+        }
+    }
+
+    fn encrypt(&mut self, packet_number: u64, header: &[u8], payload: &mut scatter::Buffer) -> Result<(), packet_protection::Error> {
+        use s2n_codec::Encoder;
+        self.probe.enc_calls.fetch_add(1, Relaxed);
+        self.probe.enc_gen.store(self.generation as i64, Relaxed);
+        let buffer = payload.flatten();
+        let tag = {
+            let (body, _) = buffer.split_mut();
+            compute_tag(self.secret, self.generation, packet_number, header, body)
+        };
+        buffer.write_slice(&tag);
+        Ok(())
+    }
+
+    fn tag_len(&self) -> usize {
+        TAG_LEN
+    }
+
+    fn aead_confidentiality_limit(&self) -> u64 {
+        self.confidentiality_limit
+    }
+
+    fn aead_integrity_limit(&self) -> u64 {
+        self.integrity_limit
+    }
+
+    fn cipher_suite(&self) -> s2n_quic_core::crypto::tls::CipherSuite {
+        s2n_quic_core::crypto::tls::CipherSuite::Unknown
+    }
+}
+
+impl OneRttKey for K {
+    fn derive_next_key(&self) -> Self {
+        K {
+            secret: self.secret,
+            generation: self.generation + 1,
+            confidentiality_limit: self.confidentiality_limit,
+            integrity_limit: self.integrity_limit,
+            probe: self.probe.clone(),
+        }
+    }
+}
+
+// ---------------------------------------------------------------------------------------
+// case description
+
+#[derive(Clone, Debug, Hash, PartialEq, Eq, Serialize, Deserialize)]
+pub enum Op {
+    /// endpoint `side` (0 = A, 1 = B) seals its next packet number; `ack`: the packet carries
+    /// an ACK of everything the endpoint has received so far
+    Enc { side: u8, ack: bool },
+    /// `n` consecutive `Enc`
+    Burst { side: u8, n: u8, ack: bool },
+    /// deliver one in-flight packet to endpoint `to`; `keep`: a copy stays in flight (duplicate)
+    Deliver { to: u8, pick: u16, keep: bool },
+    /// deliver everything in flight to `to`, in send order or reversed
+    Flush { to: u8, reverse: bool },
+    /// lose one in-flight packet
+    Drop { to: u8, pick: u16 },
+    /// deliver a damaged copy of an in-flight packet (the original stays in flight)
+    Corrupt { to: u8, pick: u16, byte: u16, mask: u8 },
+    /// deliver a well-formed packet sealed with a key of another secret, claiming generation
+    /// `G + gen_delta` of the receiver and a packet number near its largest received
+    Foreign { to: u8, gen_delta: i8, pn_delta: i8 },
+    /// advance the clock by `dt_ms` and call `on_timeout` on `side` (2 = both)
+    Tick { side: u8, dt_ms: u16 },
+    /// advance the clock to `deadline + delta_ms` of the derivation timer of `side` (if armed) and
+    /// call `on_timeout` there
+    TickToDeadline { side: u8, delta_ms: i8 },
+}
+
+#[derive(Clone, Debug, Hash, PartialEq, Eq, Serialize, Deserialize)]
+pub struct Case {
+    /// confidentiality limit of the cipher suite (packets per key), 3..=40
+    pub conf_limit: u8,
+    /// integrity limit (failed decryptions per connection), 1..=20
+    pub integ_limit: u8,
+    /// `Limits::key_update_window`, clamped to `conf_limit`
+    pub window: u8,
+    /// the PTO added to `now` for the derivation timer argument of `decrypt_packet`
+    pub pto_ms: u16,
+    /// scheduling constraints resolved in the interpreter (bit 0: a delayed packet of the
+    /// previous generation that would arrive while the receiver still retains the previous
+    /// key is lost instead; bit 1: an endpoint that has to start its next key update while
+    /// its derivation timer is still pending first waits for that timer)
+    pub sched: u8,
+    pub ops: Vec<Op>,
+}
+
+// ---------------------------------------------------------------------------------------
+// harness wire + endpoint model
+
+#[derive(Clone, Debug)]
+struct WirePkt {
+    bytes: Vec<u8>,
+    pn: u64,
+    /// generation of the key that sealed it (observed through the instrumented key)
+    generation: u32,
+    plaintext: Vec<u8>,
+    ack_largest: Option<u64>,
+}
+
+struct End {
+    name: &'static str,
+    ks: KeySet<K>,
+    probe: Arc<Probe>,
+    // ---- model (RFC 9001 §6 transcription) ----
+    /// current key generation (number of completed key updates)
+    g: u32,
+    /// `Some(deadline)`: the other key slot still holds generation g-1 (retained old read key,
+    /// next keys not created yet); `None`: it holds generation g+1
+    prev_until: Option<u64>,
+    /// packets sealed per generation
+    cnt: Vec<u64>,
+    max_sent_gen: Option<u32>,
+    failures: u64,
+    closed: bool,
+    // ---- ACK model ----
+    next_pn: u64,
+    /// largest own packet number the peer is known to have acknowledged
+    acked_by_peer: u64,
+    largest_recv: Option<u64>,
+    /// largest received packet number for which an ACK has been sent
+    largest_recv_acked: u64,
+}
+
+impl End {
+    fn new(name: &'static str, l: u64, i: u64, w: u64) -> Self {
+        let probe = Arc::new(Probe::default());
+        let key = K { secret: GENUINE_SECRET, generation: 0, confidentiality_limit: l, integrity_limit: i, probe: probe.clone() };
+        let mut limits = Limits::default();
+        limits.key_update_window = w;
+        End {
+            name,
+            ks: KeySet::new(key, limits),
+            probe,
+            g: 0,
+            prev_until: None,
+            cnt: vec![0; 4],
+            max_sent_gen: None,
+            failures: 0,
+            closed: false,
+            next_pn: 0,
+            acked_by_peer: 0,
+            largest_recv: None,
+            largest_recv_acked: 0,
+        }
+    }
+
+    fn count(&self, generation: u32) -> u64 {
+        self.cnt.get(generation as usize).copied().unwrap_or(0)
+    }
+
+    fn bump(&mut self, generation: u32) -> u64 {
+        if self.cnt.len() <= generation as usize {
+            self.cnt.resize(generation as usize + 2, 0);
+        }
+        self.cnt[generation as usize] += 1;
+        self.cnt[generation as usize]
+    }
+
+    /// generations of the two keys the endpoint holds
+    fn holds(&self, generation: u32) -> bool {
+        generation == self.g
+            || match self.prev_until {
+                Some(_) => generation + 1 == self.g,
+                None => generation == self.g + 1,
+            }
+    }
+}
+
+fn pn_of(v: u64) -> PacketNumber {
+    PacketNumberSpace::ApplicationData.new_packet_number(VarInt::new(v).unwrap())
+}
+
+fn phase_of(generation: u32) -> KeyPhase {
+    KeyPhase::from((generation & 1) as u8)
+}
+
+fn ts(ms: u64) -> Timestamp {
+    NoopClock.get_time() + Duration::from_millis(ms)
+}
+
+fn is_aead_limit(e: &ProcessingError) -> bool {
+    matches!(e, ProcessingError::ConnectionError(connection::Error::Transport { code, .. }) if *code == transport::Error::AEAD_LIMIT_REACHED.code)
+}
+
+struct World {
+    l: u64,
+    i: u64,
+    w: u64,
+    pto_ms: u64,
+    sched: u8,
+    now_ms: u64,
+    ends: [End; 2],
+    /// wire[d]: packets in flight towards endpoint d
+    wire: [Vec<WirePkt>; 2],
+    header_key: HeaderKey,
+    // statistics for the non-triviality rule / classes
+    old_after_new: [u32; 2],
+    limit_hit: bool,
+    refusals: u32,
+    closes: u32,
+    steps: u64,
+}
+
+enum Sealed {
+    Packet(WirePkt, KeyPhase),
+    /// `key_used`: a key was handed out / used although the call then reported the limit
+    Refused { key_used: bool },
+}
+
+impl World {
+    fn new(case: &Case) -> Self {
+        let l = case.conf_limit.clamp(1, 60) as u64;
+        let i = case.integ_limit.clamp(1, 40) as u64;
+        let w = (case.window as u64).min(l);
+        World {
+            l,
+            i,
+            w,
+            pto_ms: case.pto_ms.max(1) as u64,
+            sched: case.sched,
+            now_ms: 10,
+            ends: [End::new("A", l, i, w), End::new("B", l, i, w)],
+            wire: [vec![], vec![]],
+            header_key: HeaderKey::new(),
+            old_after_new: [0; 2],
+            limit_hit: false,
+            refusals: 0,
+            closes: 0,
+            steps: 0,
+        }
+    }
+
+    // ---- sending --------------------------------------------------------------------
+
+    fn seal(&mut self, side: usize, ack: bool) -> Sealed {
+        let e = &mut self.ends[side];
+        let pn = e.next_pn;
+        let ack_largest = if ack { e.largest_recv } else { None };
+        let mut plaintext = vec![0u8; PAYLOAD_LEN];
+        prf_fill(0xc15_0000 + side as u64, pn * PAYLOAD_LEN as u64, &mut plaintext);
+        plaintext[0] = 0x01;
+        plaintext[1] = ack_largest.is_some() as u8;
+        plaintext[2..10].copy_from_slice(&ack_largest.unwrap_or(0).to_le_bytes());
+
+        let mut buf = [0u8; 128];
+        let header_key = &self.header_key;
+        let largest_acked = pn_of(e.acked_by_peer);
+        let packet_number = pn_of(pn);
+        let mut phase_seen = None;
+        e.probe.reset();
+        let payload: &[u8] = &plaintext;
+        let res = e.ks.encrypt_packet(EncoderBuffer::new(&mut buf), |buffer, key, key_phase| {
+            phase_seen = Some(key_phase);
+            let packet = Short {
+                spin_bit: SpinBit::Zero,
+                key_phase,
+                destination_connection_id: &DCID[..],
+                packet_number,
+                payload,
+            };
+            packet.encode_packet(key, header_key, largest_acked, None, buffer)
+        });
+        match res {
+            Ok((protected, _remaining)) => {
+                let len = protected.len();
+                let generation = e.probe.enc_gen.load(Relaxed);
+                assert!(generation >= 0 && e.probe.enc_calls.load(Relaxed) == 1, "harness: sealed without exactly one key.encrypt call");
+                Sealed::Packet(
+                    WirePkt { bytes: buf[..len].to_vec(), pn, generation: generation as u32, plaintext, ack_largest },
+                    phase_seen.expect("closure ran"),
+                )
+            }
+            Err(PacketEncodingError::AeadLimitReached(_)) => Sealed::Refused { key_used: phase_seen.is_some() || e.probe.enc_calls.load(Relaxed) != 0 },
+            Err(other) => panic!("harness: unexpected packet encoding error {other:?}"),
+        }
+    }
+
+    fn enc(&mut self, step: usize, side: usize, ack: bool, obs: &mut Obs) -> CaseResult {
+        if self.ends[side].closed {
+            return Ok(());
+        }
+        let (l, w) = (self.l, self.w);
+        // scheduling constraint (bit 1): wait for the pending derivation timer first
+        {
+            let e = &self.ends[side];
+            if self.sched & 2 != 0 && e.count(e.g) > l.saturating_sub(w) {
+                if let Some(deadline) = e.prev_until {
+                    self.now_ms = self.now_ms.max(deadline);
+                    self.timeout(side);
+                }
+            }
+        }
+        let sealed = self.seal(side, ack);
+        let e = &mut self.ends[side];
+        let name = e.name;
+        let g = e.g;
+        // ---- model: which key must be used ----
+        //= RFC 9001 §6.6: Endpoints MUST initiate a key update before sending more protected
+        //= packets than the confidentiality limit for the selected AEAD permits.
+        // (documented knob: the update is due once the count exceeds limit - key_update_window)
+        let update_due = e.count(g) > l.saturating_sub(w);
+        let initiated = e.max_sent_gen.map_or(false, |m| m > g);
+        let next_available = e.prev_until.is_none();
+        // preferred key; while the next keys do not exist yet the current ones stay in use
+        let preferred = if next_available && (update_due || initiated) { g + 1 } else { g };
+        // failure-class suffix: the situation in which the next keys are wanted but do not exist yet
+        let ctx = if update_due && !next_available { ":update-due-while-old-key-retained" } else { "" };
+        match sealed {
+            Sealed::Refused { key_used } => {
+                self.refusals += 1;
+                obs.class("encrypt-refused");
+                ensure_that!(
+                    !key_used,
+                    "keyset:refusal-after-sealing",
+                    "step {step}: {name} encrypt_packet returned AeadLimitReached after a key had already been used to seal the packet"
+                );
+                //= RFC 9001 §6.6: If the total number of encrypted packets with the same key exceeds
+                //= the confidentiality limit for the selected AEAD, the endpoint MUST stop using those keys.
+                ensure_that!(
+                    e.count(preferred) >= l,
+                    format!("keyset:refused-before-limit{ctx}"),
+                    "step {step}: {name} encrypt_packet returned AeadLimitReached although the key to use (generation {preferred}, current {g}, next keys available: {next_available}) has sealed only {} of {l} packets",
+                    e.count(preferred)
+                );
+            }
+            Sealed::Packet(pkt, phase) => {
+                let u = pkt.generation;
+                let used_before = e.count(u);
+                ensure_that!(
+                    used_before < l,
+                    "keyset:confidentiality-limit-exceeded",
+                    "step {step}: {name} sealed pn {} with the generation-{u} key which had already sealed {used_before} packets (limit {l})",
+                    pkt.pn
+                );
+                //= RFC 9001 §6.4: Packets with higher packet numbers MUST be protected with either the
+                //= same or newer packet protection keys than packets with lower packet numbers.
+                if let Some(m) = e.max_sent_gen {
+                    ensure_that!(
+                        u >= m,
+                        format!("keyset:older-key-for-higher-pn{ctx}"),
+                        "step {step}: {name} sealed pn {} with the generation-{u} key after having sealed a lower packet number with generation {m} (current generation {g}, old key retained: {}, packets sealed with current key: {}, limit {l}, window {w})",
+                        pkt.pn,
+                        !next_available,
+                        e.count(g)
+                    );
+                }
+                //= RFC 9001 §6.2: The endpoint MUST update its send keys to the corresponding key phase in response
+                ensure_that!(
+                    u >= g,
+                    format!("keyset:send-key-older-than-read-key{ctx}"),
+                    "step {step}: {name} sealed pn {} with the generation-{u} key although it has already switched to generation {g} after receiving a packet with those keys",
+                    pkt.pn
+                );
+                ensure_that!(
+                    u == g || (u == g + 1 && next_available),
+                    "keyset:sealed-with-unknown-key",
+                    "step {step}: {name} sealed pn {} with generation {u}, current generation {g}, next available {next_available}",
+                    pkt.pn
+                );
+                ensure_that!(
+                    !(update_due && next_available && u == g),
+                    "keyset:update-not-initiated",
+                    "step {step}: {name} sealed pn {} with the current generation-{g} key which has already sealed {} packets: a key update was due after limit - window = {l} - {w} packets",
+                    pkt.pn,
+                    e.count(g)
+                );
+                //= RFC 9001 §6: The Key Phase bit is initially set to 0 for the first set of 1-RTT
+                //= packets and toggled to signal each subsequent key update.
+                ensure_that!(
+                    phase == phase_of(u),
+                    "keyset:key-phase-bit",
+                    "step {step}: {name} sealed pn {} with generation {u} but key phase bit {phase:?}",
+                    pkt.pn
+                );
+                if e.count(preferred) >= l {
+                    // only reachable when the implementation chose the other permitted key
+                    obs.class("alt-key-when-preferred-exhausted");
+                }
+                let now_used = e.bump(u);
+                if now_used == l {
+                    self.limit_hit = true;
+                }
+                obs.class_if(u == g + 1, "sealed-with-next-key");
+                e.max_sent_gen = Some(u);
+                e.next_pn += 1;
+                if let Some(a) = pkt.ack_largest {
+                    e.largest_recv_acked = e.largest_recv_acked.max(a);
+                }
+                self.wire[1 - side].push(pkt);
+            }
+        }
+        Ok(())
+    }
+
+    // ---- receiving ------------------------------------------------------------------
+
+    /// Runs the receive path on raw bytes. `genuine`: the in-flight packet it is (a copy of).
+    fn receive(&mut self, step: usize, to: usize, mut bytes: Vec<u8>, genuine: Option<&WirePkt>, what: &str, obs: &mut Obs) -> CaseResult {
+        let now_ms = self.now_ms;
+        let pto_ms = self.pto_ms;
+        let integrity_limit = self.i;
+        let e = &mut self.ends[to];
+        if e.closed {
+            return Ok(());
+        }
+        let name = e.name;
+        let remote = SocketAddress::default();
+        let info = ConnectionInfo::new(&remote);
+        let largest_acked = pn_of(e.largest_recv_acked);
+        let decoded = ProtectedPacket::decode(DecoderBufferMut::new(&mut bytes), &info, &DCID.len());
+        let protected = match decoded {
+            Ok((ProtectedPacket::Short(p), _)) => p,
+            // damaged beyond being a 1-RTT packet: never reaches the key set
+            _ => {
+                obs.class("undecodable");
+                return Ok(());
+            }
+        };
+        let encrypted = match protected.unprotect(&self.header_key, largest_acked) {
+            Ok(p) => p,
+            Err(_) => {
+                obs.class("undecodable");
+                return Ok(());
+            }
+        };
+        let seen_pn = encrypted.packet_number.as_u64();
+        let seen_phase = encrypted.key_phase();
+        let deadline_ms = now_ms + pto_ms;
+        e.probe.reset();
+        let phase_before = e.ks.key_phase();
+        let result = e.ks.decrypt_packet(encrypted, largest_acked, ts(deadline_ms));
+        let dec_gen = e.probe.dec_gen.load(Relaxed);
+        // (trial decryption with several keys is not forbidden; `dec_gen` is the last key tried)
+
+        // ---- model: must this packet decrypt? ----
+        let g = e.g;
+        let expected_ok = match genuine {
+            Some(p) => seen_pn == p.pn && e.holds(p.generation),
+            None => false,
+        };
+        if let Some(p) = genuine {
+            obs.class_if(seen_pn != p.pn, "pn-misexpanded");
+        }
+        match result {
+            Ok((clear, rotated)) => {
+                let Some(p) = genuine else {
+                    fail!("keyset:forgery-accepted", "step {step}: {name} accepted {what} (decrypted by its generation-{dec_gen} key)");
+                };
+                ensure_that!(
+                    dec_gen == p.generation as i64 && seen_pn == p.pn,
+                    "keyset:decrypt-under-wrong-key",
+                    "step {step}: {name} decrypted pn {} (sealed with generation {}) as pn {seen_pn} with its generation-{dec_gen} key",
+                    p.pn,
+                    p.generation
+                );
+                ensure_that!(
+                    expected_ok,
+                    "keyset:decrypt-with-key-not-held",
+                    "step {step}: {name} (generation {g}, other slot holds {}) decrypted pn {} of generation {}: that key should have been discarded / not been created yet",
+                    if e.prev_until.is_some() { "previous" } else { "next" },
+                    p.pn,
+                    p.generation
+                );
+                let payload = clear.payload.into_less_safe_slice();
+                ensure_that!(
+                    payload == &p.plaintext[..] && clear.packet_number.as_u64() == p.pn,
+                    "keyset:plaintext-mismatch",
+                    "step {step}: {name} decrypted pn {} to a different plaintext / packet number",
+                    p.pn
+                );
+                if p.generation == g + 1 {
+                    //= RFC 9001 §6.2: peer-initiated (or completed own) key update
+                    e.g += 1;
+                    e.prev_until = Some(deadline_ms);
+                    ensure_that!(
+                        rotated == Some(e.g as u16),
+                        "keyset:update-not-reported",
+                        "step {step}: {name} decrypted the first packet of generation {} but reported {rotated:?}",
+                        e.g
+                    );
+                    obs.class_if(e.max_sent_gen.map_or(true, |m| m < e.g), "peer-initiated-update");
+                    obs.class_if(e.max_sent_gen.map_or(false, |m| m >= e.g), "own-update-confirmed");
+                } else {
+                    // a packet of the current or of the retained previous generation never
+                    // changes the keys in use
+                    //= RFC 9001 §6.4 / §6.5: delayed packets are processed with the retained old keys
+                    ensure_that!(
+                        rotated.is_none() && e.ks.key_phase() == phase_before,
+                        "keyset:old-packet-rotates-keys",
+                        "step {step}: {name} (generation {g}, previous key retained) received delayed pn {} of generation {} and switched its key phase {phase_before:?} -> {:?} (reported generation {rotated:?}): it now sends and expects generation {} again",
+                        p.pn,
+                        p.generation,
+                        e.ks.key_phase(),
+                        p.generation
+                    );
+                    if p.generation + 1 == g {
+                        self.old_after_new[to] += 1;
+                        obs.class("old-generation-after-new");
+                    }
+                }
+                if e.largest_recv.map_or(false, |m| m >= p.pn) {
+                    obs.class("reordered-or-duplicate-delivery");
+                }
+                e.largest_recv = Some(e.largest_recv.map_or(p.pn, |m| m.max(p.pn)));
+                if let Some(a) = p.ack_largest {
+                    e.acked_by_peer = e.acked_by_peer.max(a);
+                }
+            }
+            Err(err) => {
+                if let (true, Some(p)) = (expected_ok, genuine) {
+                    let rel = if p.generation == g { "current" } else if p.generation == g + 1 { "next" } else { "previous" };
+                    fail!(
+                        format!("keyset:genuine-packet-rejected:{rel}"),
+                        "step {step}: {name} (generation {g}, other slot holds {}) failed to decrypt genuine pn {} of generation {} (phase bit {seen_phase:?}, tried its generation-{dec_gen} key): {err:?}",
+                        if e.prev_until.is_some() { "previous" } else { "next" },
+                        p.pn,
+                        p.generation
+                    );
+                }
+                if let Some(p) = genuine {
+                    obs.class_if(seen_pn == p.pn && p.generation + 1 == g, "old-generation-after-key-discarded");
+                    obs.class_if(seen_pn == p.pn && p.generation == g + 1, "next-generation-before-keys-derived");
+                    obs.class_if(seen_pn == p.pn && (p.generation > g + 1 || p.generation + 1 < g), "generation-out-of-reach");
+                }
+                //= RFC 9001 §6.6: endpoints MUST count the number of received packets that fail
+                //= authentication during the lifetime of a connection [...] across all keys
+                e.failures += 1;
+                let limit_reached = e.failures >= integrity_limit;
+                if limit_reached {
+                    ensure_that!(
+                        is_aead_limit(&err),
+                        "keyset:integrity-limit-not-enforced",
+                        "step {step}: {name} failed to authenticate packet number {} ({what}); that is failure {} with integrity limit {integrity_limit}, but the call returned {err:?} instead of AEAD_LIMIT_REACHED",
+                        seen_pn,
+                        e.failures
+                    );
+                    e.closed = true;
+                    self.closes += 1;
+                    obs.class("closed-aead-limit");
+                } else {
+                    ensure_that!(
+                        !is_aead_limit(&err),
+                        "keyset:integrity-limit-early",
+                        "step {step}: {name} returned AEAD_LIMIT_REACHED at failure {} with integrity limit {integrity_limit}",
+                        e.failures
+                    );
+                    ensure_that!(
+                        matches!(err, ProcessingError::DecryptError),
+                        "keyset:decrypt-error-kind",
+                        "step {step}: {name} returned {err:?} for a packet that fails authentication ({what})"
+                    );
+                }
+            }
+        }
+        Ok(())
+    }
+
+    fn deliver(&mut self, step: usize, to: usize, idx: usize, keep: bool, obs: &mut Obs) -> CaseResult {
+        if self.wire[to].is_empty() {
+            return Ok(());
+        }
+        let pkt = if keep { self.wire[to][idx].clone() } else { self.wire[to].remove(idx) };
+        obs.class_if(keep, "duplicate-kept");
+        let e = &self.ends[to];
+        if self.sched & 1 != 0 && e.prev_until.is_some() && pkt.generation + 1 == e.g {
+            // scheduling constraint (bit 0): this delayed packet is lost
+            return Ok(());
+        }
+        self.receive(step, to, pkt.bytes.clone(), Some(&pkt), "a genuine packet", obs)
+    }
+
+    fn corrupt(&mut self, step: usize, to: usize, idx: usize, byte: u16, mask: u8, obs: &mut Obs) -> CaseResult {
+        if self.wire[to].is_empty() {
+            return Ok(());
+        }
+        let mut bytes = self.wire[to][idx].bytes.clone();
+        let at = pick_index(byte, bytes.len());
+        let mut mask = if mask == 0 { 1 } else { mask };
+        if at == 0 {
+            // keep it a short-header packet (header form / fixed bit untouched)
+            mask &= 0x3f;
+            if mask == 0 {
+                mask = 0x04;
+            }
+        }
+        bytes[at] ^= mask;
+        obs.class_if(at == 0 && mask & 0x04 != 0, "corrupt-key-phase-bit");
+        obs.class("corrupted-copy");
+        let what = format!("a copy of pn {} with byte {at} xor {mask:#x}", self.wire[to][idx].pn);
+        self.receive(step, to, bytes, None, &what, obs)
+    }
+
+    fn foreign(&mut self, step: usize, to: usize, gen_delta: i8, pn_delta: i8, obs: &mut Obs) -> CaseResult {
+        let e = &self.ends[to];
+        let generation = (e.g as i64 + gen_delta as i64).max(0) as u32;
+        let pn = (e.largest_recv.unwrap_or(0) as i64 + pn_delta as i64).max(0) as u64;
+        let mut key = K { secret: FOREIGN_SECRET, generation, confidentiality_limit: 1 << 20, integrity_limit: 1 << 20, probe: Arc::new(Probe::default()) };
+        let mut buf = [0u8; 128];
+        let payload = prf_vec(0xf0e1, pn, PAYLOAD_LEN);
+        let packet = Short {
+            spin_bit: SpinBit::Zero,
+            key_phase: phase_of(generation),
+            destination_connection_id: &DCID[..],
+            packet_number: pn_of(pn),
+            payload: &payload[..],
+        };
+        let len = match packet.encode_packet(&mut key, &self.header_key, pn_of(e.largest_recv_acked.min(pn)), None, EncoderBuffer::new(&mut buf)) {
+            Ok((p, _)) => p.len(),
+            Err(err) => panic!("harness: cannot encode foreign packet: {err:?}"),
+        };
+        obs.class("foreign-key-packet");
+        let what = format!("pn {pn} sealed with a foreign key claiming generation {generation}");
+        self.receive(step, to, buf[..len].to_vec(), None, &what, obs)
+    }
+
+    // ---- time -----------------------------------------------------------------------
+
+    fn timeout(&mut self, side: usize) {
+        let now = self.now_ms;
+        let e = &mut self.ends[side];
+        if e.closed {
+            return;
+        }
+        e.ks.on_timeout(ts(now));
+        //= RFC 9001 §6.5: An endpoint SHOULD retain old read keys for no more than three times the
+        //= PTO after having received a packet protected using the new keys. After this period, old
+        //= read keys and their corresponding secrets SHOULD be discarded.
+        if let Some(deadline) = e.prev_until {
+            if now >= deadline {
+                e.prev_until = None;
+            }
+        }
+    }
+
+    // ---- after every op -------------------------------------------------------------
+
+    fn compare(&self, step: usize, op: &Op) -> CaseResult {
+        for e in &self.ends {
+            if e.closed {
+                continue;
+            }
+            let name = e.name;
+            ensure_that!(
+                e.ks.key_phase() == phase_of(e.g),
+                "keyset:key-phase-state",
+                "step {step} {op:?}: {name} key_phase() is {:?}, model generation {}",
+                e.ks.key_phase(),
+                e.g
+            );
+            ensure_that!(
+                e.ks.key_update_in_progress() == e.prev_until.is_some(),
+                "keyset:update-in-progress-state",
+                "step {step} {op:?}: {name} key_update_in_progress() is {}, model: previous key retained until {:?} (now {})",
+                e.ks.key_update_in_progress(),
+                e.prev_until,
+                self.now_ms
+            );
+            let exp = e.prev_until.map(ts);
+            ensure_that!(
+                e.ks.next_expiration() == exp,
+                "keyset:derivation-timer",
+                "step {step} {op:?}: {name} derivation timer {:?}, model {:?}",
+                e.ks.next_expiration(),
+                exp
+            );
+            ensure_that!(
+                e.ks.active_key().encrypted_packets() == e.count(e.g),
+                "keyset:encrypt-counter",
+                "step {step} {op:?}: {name} active key (generation {}) reports {} sealed packets, {} were sealed with it",
+                e.g,
+                e.ks.active_key().encrypted_packets(),
+                e.count(e.g)
+            );
+            for (generation, c) in e.cnt.iter().enumerate() {
+                ensure_that!(
+                    *c <= self.l,
+                    "keyset:confidentiality-limit-exceeded",
+                    "step {step} {op:?}: {name} sealed {c} packets with generation {generation} (limit {})",
+                    self.l
+                );
+            }
+        }
+        Ok(())
+    }
+
+    fn apply(&mut self, step: usize, op: &Op, obs: &mut Obs) -> CaseResult {
+        self.steps += 1;
+        match *op {
+            Op::Enc { side, ack } => self.enc(step, side as usize & 1, ack, obs)?,
+            Op::Burst { side, n, ack } => {
+                for _ in 0..n {
+                    self.enc(step, side as usize & 1, ack, obs)?;
+                }
+            }
+            Op::Deliver { to, pick, keep } => {
+                let to = to as usize & 1;
+                let idx = pick_index(pick, self.wire[to].len());
+                self.deliver(step, to, idx, keep, obs)?
+            }
+            Op::Flush { to, reverse } => {
+                let to = to as usize & 1;
+                while !self.wire[to].is_empty() {
+                    let idx = if reverse { self.wire[to].len() - 1 } else { 0 };
+                    self.deliver(step, to, idx, false, obs)?;
+                }
+            }
+            Op::Drop { to, pick } => {
+                let to = to as usize & 1;
+                if !self.wire[to].is_empty() {
+                    let idx = pick_index(pick, self.wire[to].len());
+                    self.wire[to].remove(idx);
+                }
+            }
+            Op::Corrupt { to, pick, byte, mask } => {
+                let to = to as usize & 1;
+                let idx = pick_index(pick, self.wire[to].len());
+                self.corrupt(step, to, idx, byte, mask, obs)?
+            }
+            Op::Foreign { to, gen_delta, pn_delta } => self.foreign(step, to as usize & 1, gen_delta, pn_delta, obs)?,
+            Op::Tick { side, dt_ms } => {
+                self.now_ms += dt_ms as u64;
+                for s in 0..2 {
+                    if side as usize == s || side >= 2 {
+                        self.timeout(s);
+                    }
+                }
+            }
+            Op::TickToDeadline { side, delta_ms } => {
+                let s = side as usize & 1;
+                if let Some(deadline) = self.ends[s].prev_until {
+                    let target = (deadline as i64 + delta_ms as i64).max(0) as u64;
+                    self.now_ms = self.now_ms.max(target);
+                    self.timeout(s);
+                    obs.class_if(delta_ms < 0 && self.ends[s].prev_until.is_some(), "timeout-just-before-deadline");
+                    obs.class_if(delta_ms == 0, "timeout-at-deadline");
+                }
+            }
+        }
+        self.compare(step, op)
+    }
+}
+
+pub fn run_case(case: &Case, obs: &mut Obs) -> CaseResult {
+    let mut w = World::new(case);
+    for (step, op) in case.ops.iter().enumerate() {
+        w.apply(step, op, obs)?;
+    }
+    let two_updates = w.ends[0].g >= 2 && w.ends[1].g >= 2;
+    let reordered = w.old_after_new[0] + w.old_after_new[1] >= 1;
+    obs.units = w.steps;
+    obs.nontrivial((two_updates && reordered) || w.limit_hit);
+    obs.class_if(two_updates, "two-updates-both-sides");
+    obs.class_if(two_updates && reordered, "two-updates-with-reordering");
+    obs.class_if(w.ends[0].g >= 6 && w.ends[1].g >= 6, "six-updates-both-sides");
+    obs.class_if(w.limit_hit, "confidentiality-limit-hit-exactly");
+    obs.class_if(w.sched & 1 != 0, "sched-late-old-packets-lost");
+    obs.class_if(w.sched & 2 != 0, "sched-wait-for-derivation");
+    obs.class_if(w.w == 0, "window-0");
+    obs.class_if(w.w >= w.l, "window-full");
+    Ok(())
+}
+
+// ---------------------------------------------------------------------------------------
+// generator
+
+fn side() -> impl Strategy<Value = u8> {
+    0u8..2
+}
+
+fn op_strategy() -> impl Strategy<Value = Op> {
+    prop_oneof![
+        10 => (side(), prop::bool::weighted(0.7)).prop_map(|(side, ack)| Op::Enc { side, ack }),
+        3 => (side(), 1u8..=10, prop::bool::weighted(0.7)).prop_map(|(side, n, ack)| Op::Burst { side, n, ack }),
+        10 => (side(), any::<u16>(), prop::bool::weighted(0.12)).prop_map(|(to, pick, keep)| Op::Deliver { to, pick, keep }),
+        3 => (side(), Just(0u16), Just(false)).prop_map(|(to, pick, keep)| Op::Deliver { to, pick, keep }),
+        2 => (side(), Just(u16::MAX), Just(false)).prop_map(|(to, pick, keep)| Op::Deliver { to, pick, keep }),
+        2 => (side(), prop::bool::weighted(0.3)).prop_map(|(to, reverse)| Op::Flush { to, reverse }),
+        1 => (side(), any::<u16>()).prop_map(|(to, pick)| Op::Drop { to, pick }),
+        1 => (side(), any::<u16>(), any::<u16>(), prop_oneof![Just(0x04u8), Just(0x01), Just(0x80), any::<u8>()]).prop_map(|(to, pick, byte, mask)| Op::Corrupt { to, pick, byte, mask }),
+        1 => (side(), any::<u16>(), Just(0u16), Just(0x04u8)).prop_map(|(to, pick, byte, mask)| Op::Corrupt { to, pick, byte, mask }),
+        1 => (side(), -2i8..=2, -3i8..=3).prop_map(|(to, gen_delta, pn_delta)| Op::Foreign { to, gen_delta, pn_delta }),
+        3 => (0u8..3, prop_oneof![0u16..4, 0u16..60, 0u16..400]).prop_map(|(side, dt_ms)| Op::Tick { side, dt_ms }),
+        3 => (side(), prop_oneof![Just(0i8), Just(-1), Just(1), -20i8..20]).prop_map(|(side, delta_ms)| Op::TickToDeadline { side, delta_ms }),
+    ]
+}
+
+fn case_strategy(_t: Tier) -> impl Strategy<Value = Case> {
+    (
+        prop_oneof![2 => 3u8..=6, 3 => 3u8..=40],
+        prop_oneof![1 => 1u8..=4, 3 => 1u8..=20, 2 => 12u8..=20],
+        prop_oneof![2 => 0u8..=3, 3 => 0u8..=40, 1 => Just(255u8)],
+        prop_oneof![Just(1u16), 1u16..100],
+        prop_oneof![3 => Just(0u8), 2 => Just(1), 1 => Just(2), 3 => Just(3)],
+        prop::collection::vec(op_strategy(), 1..=300),
+    )
+        .prop_map(|(conf_limit, integ_limit, window, pto_ms, sched, ops)| Case { conf_limit, integ_limit, window, pto_ms, sched, ops })
+}
+
+// ---- exhaustive short sequences over a small alphabet --------------------------------
+
+fn enum_alphabet() -> Vec<Op> {
+    vec![
+        Op::Enc { side: 0, ack: true },
+        Op::Enc { side: 1, ack: true },
+        Op::Deliver { to: 1, pick: 0, keep: false },
+        Op::Deliver { to: 1, pick: u16::MAX, keep: false },
+        Op::Deliver { to: 0, pick: 0, keep: false },
+        Op::Deliver { to: 0, pick: u16::MAX, keep: false },
+        Op::Deliver { to: 1, pick: 0, keep: true },
+        Op::Tick { side: 2, dt_ms: 10 },
+        Op::Corrupt { to: 1, pick: 0, byte: 0, mask: 0x04 },
+        Op::Corrupt { to: 0, pick: 0, byte: u16::MAX, mask: 0x01 },
+    ]
+}
+
+/// (window, integrity limit) with confidentiality limit 3
+const ENUM_CONFIGS: [(u8, u8); 6] = [(0, 2), (1, 2), (2, 1), (2, 3), (3, 2), (3, 20)];
+
+fn enum_max_len(t: Tier) -> u32 {
+    t.pick(6, 8)
+}
+
+fn enum_seqs(t: Tier) -> u64 {
+    let n = enum_alphabet().len() as u64;
+    (1..=enum_max_len(t)).map(|k| n.pow(k)).sum()
+}
+
+fn enum_total(t: Tier) -> u64 {
+    enum_seqs(t) * ENUM_CONFIGS.len() as u64
+}
+
+fn enum_case(t: Tier, idx: u64) -> Case {
+    let alphabet = enum_alphabet();
+    let n = alphabet.len() as u64;
+    let (window, integ_limit) = ENUM_CONFIGS[(idx % ENUM_CONFIGS.len() as u64) as usize];
+    let mut idx = idx / ENUM_CONFIGS.len() as u64;
+    debug_assert!(idx < enum_seqs(t));
+    let mut len = 1;
+    let mut block = n;
+    while idx >= block {
+        idx -= block;
+        block *= n;
+        len += 1;
+    }
+    let mut ops = vec![];
+    for _ in 0..len {
+        ops.push(alphabet[(idx % n) as usize].clone());
+        idx /= n;
+    }
+    Case { conf_limit: 3, integ_limit, window, pto_ms: 10, sched: 0, ops }
+}
 
 pub fn subs() -> Vec<Box<dyn SubCheck>> {
-    vec![]
+    vec![
+        Box::new(EnumCheck::<Case> {
+            name: "keyset_short_exhaustive",
+            total: enum_total,
+            case: enum_case,
+            oracle: run_case,
+        }),
+        Box::new(PropCheck::<Case, _> {
+            name: "keyset_ops",
+            cases: |t| t.pick(300_000, 30_000_000),
+            strategy: case_strategy,
+            oracle: run_case,
+            max_shrink_iters: 20_000,
+        }),
+    ]
 }
 
 pub fn property() -> Property {
     Property {
         id: "C15",
-        rule: "",
-        assumptions: &[],
+        rule: "two KeySet<K> endpoints with an instrumented key (tag binds secret, generation, pn, header, plaintext), \
+               confidentiality limit 3..40, integrity limit 1..20, key_update_window 0..limit, coupled by a harness wire; \
+               op sequences (<= 300) of seal / burst / deliver any in-flight packet (any order, duplicates, loss) / \
+               corrupted copy / foreign-key packet / clock advance + on_timeout (also exactly around the derivation \
+               deadline); largest_acknowledged follows an ACK model; every op is compared with a per-endpoint model \
+               (generation, retained-previous vs next key, per-generation seal counters, failure counter). \
+               Per case two scheduling constraints are drawn (none / either / both): delayed previous-generation packets that would \
+               arrive inside the retention window are lost instead, and an endpoint whose next update falls due while its derivation \
+               timer is pending waits for that timer first (so that part of the cases stays clear of those two situations). \
+               keyset_short_exhaustive: all sequences of <= 6 (quick) / 8 (thorough) ops over 10 ops x 6 limit configurations. \
+               Non-trivial: >= 2 key updates completed on both endpoints with >= 1 packet of the previous generation \
+               decrypted after the first packet of the new one, or some key sealed exactly `limit` packets. \
+               Distinct = distinct (limits, op sequence).",
+        assumptions: &[
+            "the instrumented OneRttKey (64-bit mixing tag over secret/generation/pn/header/plaintext) stands in for the AEAD; \
+             real limits (2^23..) are replaced by 3..40 through the same limited::Key code",
+            "header protection is the in-tree all-zero testing HeaderKey (key phase bit and pn travel in clear)",
+            "the explicit model (RFC 9001 section 6 transcription + documented key_update_window / derivation timer semantics) is the trusted base",
+        ],
         subs: subs(),
         shards: 0,
     }
